@@ -24,12 +24,13 @@ namespace cs
         p.set("place", (long long)r.below(PLACE_COUNT));
         std::size_t len = thorough ? r.range(20, 200) : r.range(6, 60);
 
-        if (profile == "C09" || profile == "C08")
+        if (profile == "C09" || profile == "C08" || profile == "C03W")
         {
             p.set("mode", "wrap");
             std::vector<std::string> names;
             for (auto& kv : comp_registry())
-                if (profile != "C08" || kv.first.find("fallback") != std::string::npos)
+                if ((profile != "C08" || kv.first.find("fallback") != std::string::npos)
+                    && (profile != "C03W" || kv.first.find("pmr") == std::string::npos)) // (C03W: K01 lives in pmr)
                     names.push_back(kv.first);
             auto comp = names[r.below(names.size())];
             p.set("comp", comp);
